@@ -29,11 +29,18 @@ CONSTANTS AB,          \* address bytes (w/8): 2, 4 or 8
 
 DW == 16 * AB   \* dw = 2w bits = 2 * 8 * AB
 
-VARIABLES stream, pos,                 \* the chosen byte string and how much of it was fed
-          buf, width, height, bpp, palSize, palette, pixels, frames, err
-vars == <<stream, pos, buf, width, height, bpp, palSize, palette, pixels, frames, err>>
+VARIABLES stream, pos,                 \* the chosen item string and how much of it was fed
+          buf, width, height, bpp, palSize, palette, pixels, frames, err,
+          mem                          \* the packed bytes of ops 0,1,2,... as they are NOW (the program may change them between commands)
+vars == <<stream, pos, buf, width, height, bpp, palSize, palette, pixels, frames, err, mem>>
 
-MemByte(k) == IF k + 1 <= Len(MemBytes) THEN MemBytes[k + 1] ELSE 0
+\* a stream item is a byte for the device (0..255) or a change of the program memory between two bytes:
+\* 1000 + 256 * k + v  =  "the packed byte of op k becomes v"  (the device is not told)
+IsPoke(x) == x >= 1000
+PokeOp(x) == (x - 1000) \div 256
+PokeVal(x) == (x - 1000) % 256
+
+MemByte(k) == IF k + 1 <= Len(mem) THEN mem[k + 1] ELSE 0
 WW == 8 * AB    \* the memory width w
 FAR == 1000000  \* stands for any address at or above 2^16 (nothing is stored there in the model)
 U16(p, o) == p[o] + 256 * p[o + 1]
@@ -61,6 +68,7 @@ Init ==
     /\ stream \in Streams /\ pos = 0
     /\ buf = <<>> /\ width = 0 /\ height = 0 /\ bpp = 8 /\ palSize = 0
     /\ palette = <<>> /\ pixels = <<>> /\ frames = 0 /\ err = FALSE
+    /\ mem = MemBytes
 
 Fail == /\ err' = TRUE /\ UNCHANGED <<width, height, bpp, palSize, palette, pixels, frames>>
 
@@ -99,10 +107,16 @@ ExecRaw(p) ==
     /\ frames' = frames + 1
     /\ UNCHANGED <<width, height, bpp, palSize, palette, err>>
 
-Byte ==
-    /\ ~err /\ pos < Len(stream)
+Poke ==
+    /\ ~err /\ pos < Len(stream) /\ IsPoke(stream[pos + 1])
     /\ pos' = pos + 1
-    /\ UNCHANGED stream
+    /\ mem' = [mem EXCEPT ![PokeOp(stream[pos + 1]) + 1] = PokeVal(stream[pos + 1])]
+    /\ UNCHANGED <<stream, buf, width, height, bpp, palSize, palette, pixels, frames, err>>
+
+Byte ==
+    /\ ~err /\ pos < Len(stream) /\ ~IsPoke(stream[pos + 1])
+    /\ pos' = pos + 1
+    /\ UNCHANGED <<stream, mem>>
     /\ LET nb == Append(buf, stream[pos + 1])
            c  == nb[1]
        IN IF LenFails(c) THEN buf' = nb /\ Fail
@@ -115,7 +129,7 @@ Byte ==
                        [] c = 4 -> ExecRect(p)
                        [] c = 5 -> ExecRaw(p)
 
-Spec == Init /\ [][Byte]_vars
+Spec == Init /\ [][Byte \/ Poke]_vars
 
 ----------------------------------------------------------------------------
 \* the property
